@@ -398,6 +398,82 @@ def ob_django_busy(w, P):
     flag('nontrivial')
     return cl
 
+def ob_django_delegation(w, P):
+    """every DjangoCache method hands each of its arguments to the sharded cache underneath, under the right parameter name:
+    distinct values for every parameter, recorded by a stand-in whose methods have FanoutCache's real signatures"""
+    import inspect
+    L = w.L
+    calls = []
+    FC = L.fanout.FanoutCache
+
+    class Rec:
+        pass
+
+    def mk(name):
+        sig = inspect.signature(getattr(FC, name))
+
+        def meth(self_, *a, **k):
+            ba = sig.bind(self_, *a, **k)
+            ba.apply_defaults()
+            d = dict(ba.arguments)
+            d.pop('self', None)
+            calls.append((name, d))
+            return None
+        return meth
+    for nm in ('add', 'set', 'touch', 'get', 'pop', 'delete', 'incr', 'decr', 'read'):
+        setattr(Rec, nm, mk(nm))
+    w.clock_fn = lambda: 0.0
+    try:
+        dc = L.djangocache.DjangoCache(w.dir, {'SHARDS': 1, 'KEY_PREFIX': 'p', 'VERSION': 1, 'OPTIONS': {}})
+    finally:
+        w.clock_fn = None
+    dc._cache = Rec()
+    m = P['method']
+    ver = [None, 3][int(w.int('version_i', 0, 1))]
+    rd = bool(w.bool('read'))
+    tg = ['t1', None][int(w.int('tag_i', 0, 1))]
+    rt = bool(w.bool('retry'))
+    et = bool(w.bool('want_expire_time'))
+    wt = bool(w.bool('want_tag'))
+    mk_ = dc.make_key('k', version=ver)
+    cl = []
+    if m in ('add', 'set'):
+        getattr(dc, m)('k', 'v', 40, ver, read=rd, tag=tg, retry=rt)
+        want = dict(key=mk_, value='v', expire=40, read=rd, tag=tg, retry=rt)
+    elif m == 'touch':
+        dc.touch('k', 40, ver, retry=rt)
+        want = dict(key=mk_, expire=40, retry=rt)
+    elif m == 'get':
+        dc.get('k', 'dflt', ver, read=rd, expire_time=et, tag=wt, retry=rt)
+        want = dict(key=mk_, default='dflt', read=rd, expire_time=et, tag=wt, retry=rt)
+    elif m == 'pop':
+        dc.pop('k', 'dflt', ver, expire_time=et, tag=wt, retry=rt)
+        want = dict(key=mk_, default='dflt', expire_time=et, tag=wt, retry=rt)
+    elif m == 'delete':
+        dc.delete('k', ver, retry=rt)
+        want = dict(key=mk_, retry=rt)
+    elif m == 'incr':
+        try:
+            dc.incr('k', 5, ver, default=9, retry=rt)
+        except (TypeError, ValueError):
+            pass
+        want = dict(key=mk_, delta=5, default=9, retry=rt)
+    elif m == 'decr':
+        try:
+            dc.decr('k', 5, ver, default=9, retry=rt)
+        except (TypeError, ValueError):
+            pass
+        want = dict(key=mk_, delta=-5, default=9, retry=rt)
+    elif m == 'read':
+        dc.read('k', ver)
+        want = dict(key=mk_)
+    got = calls[0][1] if calls else {}
+    cl.append(('C19,C01,C13', 'DjangoCache.%s makes one call of the sharded cache (%r)' % (m, [c[0] for c in calls]), len(calls) == 1 and calls[0][0] in (m, 'incr' if m == 'decr' else m)))
+    cl.append(('C19,C01,C13', 'every argument arrives under its own parameter (got %r, want %r)' % (got, want), all(k_ in got and got[k_] == v_ for k_, v_ in want.items())))
+    flag('nontrivial')
+    return cl
+
+
 OPS = ['set', 'add', 'get', 'has_key', 'touch', 'delete', 'pop', 'incr', 'decr', 'get_many', 'set_many', 'delete_many', 'get_or_set', 'incr_version', 'decr_version', 'clear',
        'backend_timeout']
 
@@ -413,6 +489,8 @@ def jobs(tier):
         out.append(dict(id='django.%s.shards=3' % op, func='ob_django', params=dict(op=op, shards=3), tags=['C19', 'C13'], functions=F, weight=6))
     for op in ('set', 'add', 'touch', 'delete', 'pop', 'incr', 'decr'):
         out.append(dict(id='django.busy.noretry.%s' % op, func='ob_django_busy', params=dict(op=op, shards=1), tags=['C19', 'C14'], functions=F, weight=3, must_reach=['lock_busy']))
+    for m_ in ('add', 'set', 'touch', 'get', 'pop', 'delete', 'incr', 'decr', 'read'):
+        out.append(dict(id='django.delegation.%s' % m_, func='ob_django_delegation', params=dict(method=m_), tags=['C19', 'C01', 'C13'], functions=['djangocache.DjangoCache.%s' % m_], weight=2, twin=False))
     # has_key is a lock-free lookup: a held write lock does not change its answer, whatever bookkeeping the cache is configured to do on reads
     for nm, opts in (('stats', {'statistics': 1}), ('lru', {'eviction_policy': 'least-recently-used'})):
         out.append(dict(id='django.busy.has_key.%s' % nm, func='ob_django', params=dict(op='has_key', shards=1, busy=1, options=opts), tags=['C19', 'C14'], functions=F, weight=4))
